@@ -93,10 +93,17 @@ func (g *GettyRemoting) sendAsync(session getty.Session, msg message.RpcMessage,
 		return nil, fmt.Errorf("session is closed")
 	}
 	resp := message.NewMessageFuture(msg)
-	g.futures.Store(msg.ID, resp)
+	if callback != nil {
+		// only a message somebody waits on gets a future: responses and heartbeats carry ids from
+		// other id spaces (the coordinator's, the heartbeat counter) and must not replace the future
+		// of an in-flight request that happens to have the same id.
+		g.futures.Store(msg.ID, resp)
+	}
 	_, _, err = session.WritePkg(msg, time.Duration(0))
 	if err != nil {
-		g.futures.Delete(msg.ID)
+		if callback != nil {
+			g.futures.Delete(msg.ID)
+		}
 		log.Errorf("send message: %#v, session: %s", msg, session.Stat())
 		return nil, err
 	}
